@@ -9,6 +9,7 @@ package hsim
 // decoder on the same bytes.
 
 import (
+	"bytes"
 	"errors"
 	"fmt"
 	"io"
@@ -26,6 +27,7 @@ func init() { scenarios["C05"] = scenC05; batchProps["C05"] = true }
 
 // simReader is the simulated reader.
 type simReader struct {
+	emptyAsks   int
 	data        []byte
 	chunks      []int // successive read sizes; 0 = a read returning (0, nil); exhausted = rest
 	i           int
@@ -39,6 +41,13 @@ var errInjected = errors.New("sim: injected I/O error")
 
 func (r *simReader) Read(p []byte) (int, error) {
 	r.reads++
+	if len(p) == 0 {
+		// a decoder that asks for nothing can never make progress: end the run instead of spinning
+		if r.emptyAsks++; r.emptyAsks > 1000 {
+			panic("the decoder called Read with an empty buffer 1000 times")
+		}
+		return 0, nil
+	}
 	if r.errAt >= 0 && r.given >= r.errAt {
 		return 0, errInjected
 	}
@@ -66,6 +75,15 @@ func (r *simReader) Read(p []byte) (int, error) {
 		return n, io.EOF
 	}
 	return n, nil
+}
+
+func allZero(b []byte) bool {
+	for _, x := range b {
+		if x != 0 {
+			return false
+		}
+	}
+	return true
 }
 
 func errClass(e error) string {
@@ -209,14 +227,22 @@ func scenC05(r *Run) {
 		rd := mk()
 		var dec *hio.Decoder
 		if pooled {
-			// a pooled decoder that was used before, on a longer and failing input
+			// a pooled decoder that was used before: on a longer and failing input, on an empty one, or on a small
+			// valid one whose bytes still belong to that earlier caller
 			d0 := hio.GetDecoder()
-			d0.ResetBytes([]byte(`s5"abc`)).Simple(false)
+			prev := [][]byte{[]byte(`s5"abc`), {}, []byte(`s3"own"`), make([]byte, 0, 16)}[cases%4]
+			keep := append([]byte(nil), prev...)
+			d0.ResetBytes(prev).Simple(false)
 			var junk string
 			d0.Decode(&junk)
 			hio.FreeDecoder(d0)
 			dec = hio.GetDecoder().ResetReader(rd)
 			defer hio.FreeDecoder(dec)
+			defer func() {
+				if !bytes.Equal(prev[:len(keep)], keep) || (cap(prev) > len(prev) && !allZero(prev[len(prev):cap(prev)])) {
+					r.Fail("C05:streaming-decode-wrote-into-an-earlier-input", "%s: the pooled decoder had decoded %q before; after the streaming decode that slice reads %q", desc, keep, prev[:cap(prev)])
+				}
+			}()
 		} else if bufSize > 0 {
 			dec = hio.NewDecoderFromReader(rd, bufSize)
 		} else {
